@@ -40,6 +40,8 @@ type w1Op struct {
 	Back    int    `json:"back,omitempty"`    // subrec: requested offset = top - Back (negative: beyond the top)
 	Ep      string `json:"ep,omitempty"`      // subrec: cur | foreign | empty
 	Reject  bool   `json:"reject,omitempty"`  // subrec: demand error 112 when not recoverable
+	Tf      bool   `json:"tf,omitempty"`      // subscribe with a client tags filter (tag c == "1")
+	Delta   bool   `json:"delta,omitempty"`   // subscribe negotiating fossil delta
 }
 
 type w1Client struct {
@@ -134,6 +136,7 @@ type w1Frame struct {
 }
 
 type w1Cmd struct {
+	Tf, Delta bool
 	At       time.Duration
 	Seq      int64
 	RetSeq   int64
@@ -163,6 +166,7 @@ type w1NodeOp struct {
 }
 
 type w1PubRec struct {
+	Tags        map[string]string
 	Seq, RetSeq int64
 	Ch          string
 	Data        string
@@ -198,6 +202,7 @@ type w1SimClient struct {
 	onConnectRan bool
 	acceptedAt   time.Duration
 	stalledAtSeq int64
+	nextTf, nextDelta bool
 	instances    []*w1Instance
 }
 
@@ -218,6 +223,7 @@ type w1World struct {
 	shutdownRet  int64
 	pendingAsync int
 	startUnix    int64
+	markerPhase  bool // settled-state marker publications pass every filter
 	endPhaseSeq  int64 // everything closed after this point was closed by the harness at the end
 	csr          bool // ConnectReply.ClientSideRefresh
 	preRun       func(n *Node) // cluster world: install shared broker / controller before Run
@@ -472,6 +478,9 @@ func (cl *w1SimClient) send(cmd *protocol.Command, kind, ch string) bool {
 		return false
 	}
 	rec := &w1Cmd{At: w.s.Now(), Seq: w.next(), ID: cmd.Id, Kind: kind, Ch: ch, PreAuth: !cl.connected}
+	if cmd.Subscribe != nil {
+		rec.Tf, rec.Delta = cmd.Subscribe.Tf != nil, cmd.Subscribe.Delta != ""
+	}
 	cl.cmds = append(cl.cmds, rec)
 	w.s.Event("c%d cmd %s id=%d ch=%s", cl.idx, kind, cmd.Id, ch)
 	ok := cl.client.HandleCommand(cmd, 10)
@@ -513,6 +522,13 @@ func (cl *w1SimClient) runOp(op w1Op) bool {
 				req.Recover, req.Offset, req.Epoch = true, pos.Offset, pos.Epoch
 			}
 		}
+		if op.Tf {
+			req.Tf = &protocol.FilterNode{Key: "c", Cmp: "eq", Val: "1"}
+		}
+		if op.Delta {
+			req.Delta = "fossil"
+		}
+		cl.nextTf, cl.nextDelta = op.Tf, op.Delta
 		return cl.send(&protocol.Command{Id: cl.id(), Subscribe: req}, "subscribe", op.Ch)
 	case "subrec":
 		// recovery from an explicit position, evaluated at quiescence (C02/C03)
@@ -648,6 +664,13 @@ func (w *w1World) subscribeOptions(ch string) SubscribeOptions {
 	if chHas(ch, 'J') {
 		o.PushJoinLeave = true
 	}
+	if chHas(ch, 'f') {
+		o.AllowTagsFilter = true
+		o.ServerTagsFilter = &FilterNode{Key: "s", Cmp: "eq", Val: "1"}
+	}
+	if chHas(ch, 'd') {
+		o.AllowedDeltaTypes = []DeltaType{DeltaTypeFossil}
+	}
 	return o
 }
 
@@ -658,10 +681,14 @@ func (w *w1World) subscribeOpts(ch string) []SubscribeOption {
 }
 
 func (w *w1World) publishOpts(ch string) []PublishOption {
+	var opts []PublishOption
 	if chPositioned(ch) || chHas(ch, 'h') {
-		return []PublishOption{WithHistory(w.sc.Cfg.HistorySize, time.Duration(w.sc.Cfg.HistoryTTLSec)*time.Second)}
+		opts = append(opts, WithHistory(w.sc.Cfg.HistorySize, time.Duration(w.sc.Cfg.HistoryTTLSec)*time.Second))
 	}
-	return nil
+	if chHas(ch, 'd') {
+		opts = append(opts, WithDelta(true))
+	}
+	return opts
 }
 
 func (w *w1World) setup() error {
@@ -912,9 +939,21 @@ func (b *w1PubSub) HandleLeave(ch string, info *ClientInfo) error { return b.nod
 func (w *w1World) publish(ch string) {
 	w.markerSeq++
 	data := fmt.Sprintf(`{"m":"%d"}`, w.markerSeq)
+	if chHas(ch, 'd') {
+		// similar, longer payloads so that fossil deltas are real deltas
+		data = fmt.Sprintf(`{"m":"%d","pad":"%s","tail":%d}`, w.markerSeq, strings.Repeat("abcdefgh", 8), w.markerSeq%7)
+	}
+	opts := w.publishOpts(ch)
 	rec := &w1PubRec{Seq: w.next(), Ch: ch, Data: data}
+	if chHas(ch, 'f') && !w.markerPhase {
+		rec.Tags = map[string]string{"s": []string{"1", "1", "0"}[w.s.Intn(3)], "c": []string{"1", "0"}[w.s.Intn(2)]}
+		opts = append(opts, WithTags(rec.Tags))
+	} else if chHas(ch, 'f') {
+		rec.Tags = map[string]string{"s": "1", "c": "1"}
+		opts = append(opts, WithTags(rec.Tags))
+	}
 	w.pubs = append(w.pubs, rec)
-	res, err := w.node.Publish(ch, []byte(data), w.publishOpts(ch)...)
+	res, err := w.node.Publish(ch, []byte(data), opts...)
 	rec.RetSeq = w.next()
 	rec.Offset, rec.Epoch = res.Offset, res.Epoch
 	if err != nil {
@@ -1138,6 +1177,8 @@ var w1Flavours = map[string][]string{
 	"C26": {"_", "p_", "_", "e_"},
 	"C43": {"h_", "ph_", "eh_", "rh_"},
 	"C02": {"r_", "r_"},
+	"C16": {"f_", "pf_", "rf_", "cf_"},
+	"C14": {"pd_", "rd_", "pfd_", "rd_"},
 	"C03": {"c_", "c_"},
 	"C37": {"_", "p_"},
 }
@@ -1274,6 +1315,12 @@ func w1Gen(c *simrt.Choice, prop, tier string) any {
 			switch c.Pick(weights...) {
 			case 0:
 				op = w1Op{K: "sub", Ch: pickCh(), Recover: c.Intn(2) == 0}
+				if chHas(op.Ch, 'f') && c.Intn(2) == 0 {
+					op.Tf = true
+				}
+				if chHas(op.Ch, 'd') && c.Intn(4) > 0 {
+					op.Delta = true
+				}
 				if c.Intn(3) == 0 {
 					op.DelayUs = []int{1, 100, 3000, 6000000}[c.Intn(4)]
 				}
@@ -1485,7 +1532,7 @@ func init() {
 			return r.Probes["nontrivial:"+prop] > 0
 		},
 	})
-	for _, p := range []string{"C04", "C05", "C10", "C01", "C06", "C07", "C08", "C09", "C11", "C26", "C43", "C36", "C37", "C02", "C03"} {
+	for _, p := range []string{"C04", "C05", "C10", "C01", "C06", "C07", "C08", "C09", "C11", "C26", "C43", "C36", "C37", "C02", "C03", "C14", "C16"} {
 		simrt.Claim(p, "w1", 10)
 	}
 }
